@@ -425,7 +425,7 @@ func ruleReleaseAfterUse(c *Check, p *Program, rule string) {
 	// Writer worker: Put(data) and b.Close come after the final receive on c, which follows the send of the result
 	ww := findFn(c, p, rule, "", "Writer.write")
 	if ww != nil {
-		for _, fn := range familyFns(ww)[1:] {
+		for _, fn := range goroutinesOf(ww) {
 			var send, recv ssa.Instruction
 			allInstrs(fn, func(in ssa.Instruction) {
 				if _, ok := in.(*ssa.Send); ok && send == nil {
@@ -897,7 +897,7 @@ func ruleJoinedEpilogue(c *Check, p *Program, rule string) {
 	if ww == nil {
 		return
 	}
-	for _, fn := range familyFns(ww)[1:] {
+	for _, fn := range goroutinesOf(ww) {
 		var last ssa.Instruction
 		allInstrs(fn, func(in ssa.Instruction) {
 			if _, ok := isRecv(in); ok {
